@@ -572,6 +572,23 @@ def ver3_bindings(ctx: Ctx) -> None:
                         n_cond += 1
                         bad = live - bset
                         if bad:
+                            # a read under `if flag:` where the flag is a local that only ever receives constants: the flag can be
+                            # true only on an interpreter on which one of its true-ish assignments is live
+                            from .opcodes import guards_of
+                            for g_, pol in guards_of(mod, x, fn):
+                                neg = isinstance(g_, ast.UnaryOp) and isinstance(g_.op, ast.Not)
+                                fl_ = g_.operand if neg else g_
+                                if not isinstance(fl_, ast.Name) or fl_.id in params:
+                                    continue
+                                asg = [a_ for a_ in walk_scope(fn) if isinstance(a_, (ast.Assign, ast.AnnAssign)) and any(isinstance(t_, ast.Name) and t_.id == fl_.id for t_ in (a_.targets if isinstance(a_, ast.Assign) else [a_.target]))]
+                                stores = [w_ for w_ in walk_scope(fn) if isinstance(w_, ast.Name) and w_.id == fl_.id and isinstance(w_.ctx, ast.Store)]
+                                if not asg or len(stores) != len(asg) or not all(isinstance(a_.value, ast.Constant) for a_ in asg):
+                                    continue
+                                want_true = pol != neg
+                                can = frozenset().union(*[reach.live.get(id(a_), reach.at(a_) if hasattr(reach, "at") else fl) for a_ in asg if bool(a_.value.value) == want_true]) if any(bool(a_.value.value) == want_true for a_ in asg) else frozenset()
+                                live = live & can
+                            bad = live - bset
+                        if bad:
                             ctx.R.fail("VER-3", mod, x, f"local '{name}' is assigned only under CPython {fmt(bset)} but read on a path reachable under {fmt(live)}: UnboundLocalError on {fmt(bad)}",
                                        construct=f"{name} in {norm(_stmt(mod, x))[:140]}")
                         else:
